@@ -119,7 +119,7 @@ func buildOverlay(repo, pkg, hdir string, edits []Edit) (map[string][]byte, erro
 func loadProgram(repo, pkg string, overlay map[string][]byte) (*ssa.Package, int, error) {
 	cfg := &packages.Config{Mode: packages.LoadAllSyntax, Dir: repo,
 		Env:     append(os.Environ(), "GOFLAGS=-mod=mod", "GOPROXY=off", "GOSUMDB=off", "GOTOOLCHAIN=local"),
-		Overlay: overlay, BuildFlags: []string{"-tags=verif"}}
+		Overlay: overlay, BuildFlags: []string{"-tags=verif,math_big_pure_go,purego"}}
 	pkgs, err := packages.Load(cfg, pkg)
 	if err != nil {
 		return nil, 0, err
